@@ -193,7 +193,8 @@ func genTK(r *lib.Rand, h *History, i int) {
 		sw[i](&p)
 		h.TK = &p
 		h.Via = sweepVia(i)
-		h.Steps = []Step{{"issue", []string{"0"}}, {"mint", []string{"1000"}}, {"issue", []string{fmt.Sprint(1 + r.Intn(5))}}, {"mint", []string{"5"}}}
+		h.Steps = []Step{{"issue", []string{"0"}}, {"mint", []string{"1000"}}, {"issue", []string{fmt.Sprint(1 + r.Intn(5))}}, {"mint", []string{"5"}},
+			{"edit", []string{"2000000"}}, {"burn", []string{"10"}}, {"transfer_owner", nil}}
 		return
 	}
 	nvar := 1 + r.Weighted(6, 2, 1)
